@@ -5,7 +5,7 @@ import numpy as np
 
 from vlib import lossref as R
 
-FILTER_KINDS = [None, None, "affine", "cumsum", "square", "hp_cycle", "log_hp", "diff_log_demean"]
+FILTER_KINDS = [None, None, "affine", "cumsum", "square", "demean", "hp_cycle", "log_hp", "diff_log_demean"]
 
 
 def calc_mean_std(x):
@@ -22,15 +22,21 @@ def calc_minmaxmean(x):
     return np.array([x.min(), x.max(), x.mean(), np.abs(x).mean()])
 
 
-CALCS = {"mean_std": (calc_mean_std, 2), "quartiles": (calc_quartiles, 3), "minmaxmean": (calc_minmaxmean, 4)}
+def calc_head_view(x):
+    """'Moments' = the first six observations, returned as a VIEW of the argument (a calculator need not allocate)."""
+    return np.asarray(x)[:6]
+
+
+CALCS = {"mean_std": (calc_mean_std, 2), "quartiles": (calc_quartiles, 3), "minmaxmean": (calc_minmaxmean, 4), "head_view": (calc_head_view, 6)}
 
 
 def gen_filters(rng, D, allow=True):
     if not allow or rng.random() < 0.45:
         return None
     fs = []
+    same = FILTER_KINDS[int(rng.integers(2, len(FILTER_KINDS)))] if (D >= 2 and rng.random() < 0.2) else None   # one function for every coordinate
     for _ in range(D):
-        k = FILTER_KINDS[int(rng.integers(len(FILTER_KINDS)))]
+        k = FILTER_KINDS[int(rng.integers(len(FILTER_KINDS)))] if same is None else same
         if k is None:
             fs.append(None)
         elif k == "affine":
@@ -47,6 +53,9 @@ def gen_weights(rng, D):
     w = np.round(rng.random(D) * 3, 3)
     if u > 0.8 and D > 1:
         w[int(rng.integers(D))] = 0.0
+    if u > 0.92:
+        j = int(rng.integers(D))
+        w[j] = -float(np.round(rng.random() * 2 + 0.1, 3))   # weights are importances by convention, not by contract
     return w.tolist()
 
 
@@ -55,12 +64,13 @@ def gen_loss_desc(rng, kind, D, N):
     if kind == "minkowski":
         d["p"] = float(rng.choice([1, 1.5, 2, 3])) if rng.random() < 0.8 else 2
     elif kind == "msm":
-        d["calc"] = str(rng.choice(["default", "default", "mean_std", "quartiles", "minmaxmean"]))
+        d["calc"] = str(rng.choice(["default", "default", "mean_std", "quartiles", "minmaxmean", "head_view"]))
         nm = 18 if d["calc"] == "default" else CALCS[d["calc"]][1]
         cov = str(rng.choice(["identity", "inverse_variance", "matrix"]))
         if cov == "matrix":
             A = rng.normal(size=(nm, nm))
-            cov = np.round((A + A.T) / 2, 3).tolist()
+            # overall scale: O(1), or that of an inverse covariance of large / tiny moments (every entry far below 1e-8, or huge)
+            cov = (np.round((A + A.T) / 2, 3) * float(rng.choice([1.0, 1.0, 1e-10, 1e6]))).tolist()
         d["cov"] = cov
         d["standardise"] = bool(rng.random() < 0.4)
     elif kind == "fourier":
@@ -74,12 +84,25 @@ def gen_loss_desc(rng, kind, D, N):
         if d["h"] == "number":
             d["h"] = float(np.round(10.0 ** rng.uniform(-1, 1), 4))
         d["weights"] = None
+    if rng.random() < 0.12:
+        # the documented defaults, obtained by NOT passing the options at all
+        d["defaults"] = True
+        if kind == "minkowski":
+            d["p"] = 2
+        elif kind == "msm":
+            d.update(calc="default", cov="identity", standardise=False)
+        elif kind == "fourier":
+            d.update(filter="gaussian", f=0.8)
+        elif kind == "gsl":
+            d.update(nb_values=None, nb_word_lengths=None)
+        elif kind == "likelihood":
+            d["h"] = "silverman"
     return d
 
 
 def gen_data(rng, N, D, E, filters, shapes=None, int_data=False):
     """Real (N, D) and simulated (E, N, D) data; coordinates that feed a log filter are positive."""
-    shapes = shapes or ["normal", "normal", "heavy", "constant", "twovalued", "tied", "monotone", "walk"]
+    shapes = shapes or ["normal", "normal", "heavy", "constant", "twovalued", "tied", "symint", "monotone", "walk"]
     real = np.empty((N, D))
     sim = np.empty((E, N, D))
     kinds = []
@@ -100,6 +123,10 @@ def gen_data(rng, N, D, E, filters, shapes=None, int_data=False):
                 x = rng.choice([0.0, 1.0], size=N)
             elif sh == "tied":
                 x = np.round(rng.normal(size=N), 1)
+            elif sh == "symint":
+                kk = int(rng.integers(1, 6))
+                x = rng.integers(-kk, kk + 1, size=N).astype(float)
+                x[:3] = [-kk, kk, 0]      # extremes and the exact mid-point are present
             elif sh == "monotone":
                 x = np.sort(rng.normal(size=N))
             else:
@@ -134,9 +161,11 @@ def build_filter(spec):
     if k == "affine":
         return R.Affine(spec[1], spec[2])
     if k == "cumsum":
-        return R.CumSum()
+        return R.CUMSUM
     if k == "square":
-        return R.Square()
+        return R.SQUARE
+    if k == "demean":
+        return R.DEMEAN
     return {"hp_cycle": ts.hp_cycle_lamb1600_filter, "log_hp": ts.log_and_hp_filter, "diff_log_demean": ts.diff_log_demean_filter}[k]
 
 
@@ -151,6 +180,14 @@ def build_loss(d):
     w = None if d.get("weights") is None else np.array(d["weights"], dtype=float)
     fl = None if d.get("filters") is None else [build_filter(s) for s in d["filters"]]
     k = d["kind"]
+    if d.get("defaults"):
+        cls = {"minkowski": MinkowskiLoss, "msm": MethodOfMomentsLoss, "fourier": FourierLoss, "gsl": GslDivLoss, "likelihood": LikelihoodLoss}[k]
+        kw = {}
+        if w is not None:
+            kw["coordinate_weights"] = w
+        if fl is not None:
+            kw["coordinate_filters"] = fl
+        return cls(**kw)
     if k == "minkowski":
         return MinkowskiLoss(p=d["p"], coordinate_weights=w, coordinate_filters=fl)
     if k == "msm":
@@ -204,4 +241,8 @@ def reference_value(d, sim, real, flags=None):
         total += w[i] * v
         if flags is not None:
             flags["abs_scale"] = flags.get("abs_scale", 0.0) + abs(w[i]) * max(abs(v), getattr(one, "abs_scale", 0.0))
+    if flags is not None and k == "msm" and not isinstance(d["cov"], str):
+        # the value is linear in the weighting matrix: a matrix with entries of order 1e-10 scales value and rounding noise alike,
+        # so the absolute floor of the comparison scales with it
+        flags["floor"] = float(min(1.0, max(np.max(np.abs(np.array(d["cov"], dtype=float))), 1e-300)))
     return total, per
